@@ -25,7 +25,7 @@ PROPS = {
     },
     "C05": {
         "level": "model_checking",
-        "kani": ["c05_air", "c26_serde"],
+        "kani": ["c05_air", "c26_serde", "c19_merkle"],
         "verus": [],
         "level_text": "Panic-freedom contract (requires true, ensures returns Ok or Err) on every decoder and verifier-side "
                       "parser, checked by Kani on a nondeterministic reader: complete for loop-free decoders, bounded "
@@ -73,6 +73,95 @@ PROPS = {
         "level_note": "Run at E = f128 (identity representation); transfer to f64/f62 rests on injectivity of their "
                       "From<u32>/from_bytes_with_padding, i.e. as_int(new(v)) == v (C11, Verus). Known finding F17 "
                       "(trailing zero bytes of metadata) is reported, not suppressed for other inputs.",
+    },
+    "C20": {
+        "level": "model_checking",
+        "kani": ["c20_coin"],
+        "verus": [],
+        "level_text": "Contracts on every DefaultRandomCoin method over a recording hasher with fresh unconstrained outputs: "
+                      "which hash calls are made (kind, arguments, order) and how outputs depend on the digests; loop-free "
+                      "methods complete, draw_integers for 0..=3 values, draw with a valid element within two digests.",
+        "level_note": "Trusted: the recording hasher is a test fixture standing for any hash function; determinism follows "
+                      "because every output is a function of (seed, counter, arguments) through the recorded calls. The "
+                      "1000-iteration exhaustion paths of draw/draw_integers are not explored.",
+    },
+    "C19": {
+        "level": "model_checking",
+        "kani": ["c19_merkle"],
+        "verus": [],
+        "level_text": "MerkleTree::verify: exact path recomputation stated over the recorded merge calls of an arbitrary hash "
+                      "function (proof lengths 1-3, every index); map_indexes / domain-length functions over every depth; "
+                      "get_root / verify_batch / into_openings panic-free on malformed inputs for enumerated shapes with "
+                      "symbolic contents.",
+        "level_note": "Trusted: BTreeMap/BTreeSet replaced by a sorted-Vec model under cfg(kani) (real B-tree internals do not "
+                      "terminate in CBMC); rejection of wrong data assumes a collision-free hasher (standard). Shapes outside "
+                      "the enumeration and depth > 3 for batch functions are not covered.",
+    },
+    "C18": {
+        "level": "model_checking",
+        "kani": ["c19_merkle"],
+        "verus": [],
+        "level_text": "Consistency contracts among new/prove/verify/prove_batch/verify_batch/get_root/from_single_proofs/"
+                      "into_openings for every hash function that is a function (cheap mixing hasher), on 2- and 4-leaf "
+                      "trees with symbolic digests; batch routes on enumerated concrete index sequences.",
+        "level_note": "Bounded: trees of 2 and 4 leaves, listed index sequences. BTree model as for C19. The parallel "
+                      "(rayon) build is not covered: Kani has no thread support.",
+    },
+    "C03": {
+        "level": "model_checking",
+        "kani": ["c03_fri"],
+        "verus": [],
+        "level_text": "Ok-path implications of the verifier-side reveal functions, stated modularly over the contract of "
+                      "VectorCommitment::verify_many (recorded, arbitrary verdict) and an arbitrary functional hasher: "
+                      "read_layer_queries performs exactly the commitment check on the revealed rows; a zero-layer "
+                      "FriVerifier::verify accepts only a remainder whose hash is the last commitment.",
+        "level_note": "Bounded instances (2 positions / 1 query, domain 8, 2 remainder coefficients) over the real f64 field. "
+                      "Trusted: mocks (hasher, coin, vector commitment, channel); verify_many's own contract is C19. The "
+                      "main verifier channel's trace/constraint row checks are covered by unit c03_verifier when present.",
+    },
+    "C09": {
+        "level": "model_checking",
+        "kani": ["c03_fri"],
+        "verus": [],
+        "level_text": "Deterministic rejection clauses of the FRI verifier as implications of verify(): revealed layer values "
+                      "bound to the layer commitment, remainder bound to the last commitment and to the degree bound, "
+                      "argument-count mismatch rejected.",
+        "level_note": "The probabilistic clause (far-from-low-degree data is rejected) is not decidable by contracts. Bounded "
+                      "instances as in C03; folding consistency across a real folded layer is not covered.",
+    },
+    "C13": {
+        "level": "model_checking",
+        "kani": ["c13_math"],
+        "verus": [],
+        "level_text": "Each polynomial helper against its definition (convolution, explicit powers, Euclid identity, vanishing at roots) on the real generic code monomorphised at the verification-only field F_17; all element values, small fixed lengths.",
+        "level_note": "BOUNDED (never counted as proved): F_17 with <= 5 symbolic elements per obligation, lengths <= 4, degree patterns with non-zero leading coefficients for div. Transfer to production fields rests on parametricity of the generic code + C10. interpolate_batch, eval over mixed base/extension types and longer operands are not covered.",
+    },
+    "C14": {
+        "level": "model_checking",
+        "kani": ["c13_math"],
+        "verus": [],
+        "level_text": "Element-wise definitions of batch_inversion (zeros anywhere), power series, add_in_place and mul_acc on the real generic code at F_17, all element values, lengths 3-6.",
+        "level_note": "BOUNDED: F_17, lengths <= 6 (never across the 1024-element parallel batch boundary; the concurrent feature is not applicable: Kani has no threads). group/flatten/transpose slice helpers not yet under contract.",
+    },
+    "C12": {
+        "level": "model_checking",
+        "kani": ["c13_math"],
+        "verus": [],
+        "level_text": "FFT evaluation equals naive evaluation and interpolation inverts it at n = 4 (all coefficients) and on the blowup-2 coset with symbolic offset; permute_index is the bit reversal and an involution for every size up to 2^16.",
+        "level_note": "BOUNDED: F_17, n = 4 (and 8 evaluation points); MAX_LOOP (256) recursion switch and the 1024 concurrency threshold are never crossed; thread clause not applicable (Kani has no threads).",
+    },
+    "C11": {
+        "level": "proof",
+        "kani": ["c11_f64", "c11_f62"],
+        "verus": ["f64_core", "f62_core"],
+        "level_text": "Decoders accept exactly the values below the modulus and return new(value), encoders write the "
+                      "little-endian canonical integer (Kani, complete over all byte strings / integers); "
+                      "as_int(new(v)) == v for every v < M and the Montgomery constants R2/R3/U are proved in Verus on the "
+                      "extracted real text; root-of-unity orders and the modulus shape are closed-term evaluations.",
+        "level_note": "Trusted: primality of the moduli, the factorisation of p - 1, irreducibility of the extension "
+                      "polynomials and the Frobenius coefficient tables are not derived inside the verifiers (number "
+                      "theory outside contract reach). f128 decoders and the extension-field decoders are not under "
+                      "contract yet. Closed-term obligations are finite evaluations, not proofs over inputs.",
     },
 }
 
